@@ -135,6 +135,22 @@ func c20ExecValue(ctx *vk.Ctx, c c20ValCase) error {
 	ctx.ClassIf(bt, "wt-bytes")
 	ctx.ClassIf(f4, "wt-4byte")
 
+	if g.encodeOnly {
+		// The value holds an implementer that is registered by value although
+		// only its pointer implements the interface (GnoVM AST nodes): it can
+		// be encoded but, by registration, never decoded. Only the encoder
+		// clauses above apply; the decoders must still agree with each other.
+		ctx.Class("encode-only-value")
+		_, e1 := cd.decReflect(bzR)
+		if t.Gen2 {
+			_, e2 := cd.decGen(bzR)
+			if (e1 == nil) != (e2 == nil) {
+				return fmt.Errorf("%s: decoders disagree on the encoding %x of an encode-only value: reflect err=%v ; genproto2 err=%v", c.T, bzR, e1, e2)
+			}
+		}
+		return nil
+	}
+
 	// (2) decoders
 	d1, err := cd.decReflect(bzR)
 	if err != nil {
@@ -260,7 +276,7 @@ func c20ExecValue(ctx *vk.Ctx, c c20ValCase) error {
 	return nil
 }
 
-const c20ValRule = "a registered type (uniform over all 305 of tm2/gnovm/gno.land) and a byte tape from which E6 builds a value by reflection (interfaces filled with registered implementers, domain generators for AminoMarshaler types, depth<=5, <=400 nodes); non-trivial = the value holds a non-nil interface or a non-empty nested list; distinct by (type,tape)"
+const c20ValRule = "a registered type (uniform over all 305 of tm2/gnovm/gno.land) and a byte tape from which E6 builds a value by reflection (interfaces filled with registered implementers - those registered by value whose pointer alone implements the interface, i.e. the GnoVM AST nodes, make the value encode-only: encoder clauses and decoder agreement only -, domain generators for AminoMarshaler types, depth<=5, <=400 nodes); non-trivial = the value holds a non-nil interface or a non-empty nested list; distinct by (type,tape)"
 
 func c20DrawTape(rt *rapid.T) []byte {
 	switch rapid.IntRange(0, 9).Draw(rt, "tapekind") {
